@@ -85,8 +85,7 @@ ASSUMPTIONS = [
     "compress(): a finite element whose error exceeds tol*|x| by at most one ulp of the stored float type is "
     "undecided (counted, not judged); zeros must come back as zero; -0.0 == 0.0",
     "type-incorrect chains (floats into RunLength/Delta/IntegerPacking, integers into FixedPoint) are not generated",
-    "strings with trailing NUL (numpy strips them) and lone surrogates (not UTF-8 encodable) are not generated; "
-    "category/block names do not start with '_' (BinaryCIFBlock strips every leading underscore on reading)",
+    "strings with trailing NUL (numpy strips them) and lone surrogates (not UTF-8 encodable) are not generated",
     "BinaryCIFData.__eq__ uses np.array_equal (NaN != NaN): object equality is only judged for NaN-free content",
     "the iteration of compress._get_decimal_places is bounded by a step counter (2000 decimal places) installed "
     "from outside so that non-termination becomes a verdict instead of a watchdog timeout",
@@ -1175,8 +1174,14 @@ _TOLS = [1e-1, 1e-2, 1e-3, 1e-4, 1e-5, 1e-6, 1e-6, 1e-7, 1e-8, 1e-9, None]
 
 def gen_compress_floats(rng, ctx, D, n, tol):
     """Float array for compress(); trigger classes that are quarantined are replaced by clean arrays."""
-    style = pick(rng, ["coords", "coords", "occupancy", "bfactor", "generic", "generic", "tiny", "specials"])
-    if style == "coords":
+    style = pick(rng, ["coords", "coords", "occupancy", "bfactor", "generic", "generic", "tiny", "specials", "one_sided"])
+    if style == "one_sided":
+        # the element of largest magnitude has a definite sign (also negative) and the others need many decimals
+        big = float(pick(rng, [2.5e3, 2.5e4, 2.5e5, 2.5e6, 2.1e7])) * float(pick(rng, [-1, -1, 1]))
+        v = np.round(rng.uniform(-9, 9, size=n), int(pick(rng, [2, 3, 4, 5])))
+        if n:
+            v[int(rng.integers(n))] = big + 0.125
+    elif style == "coords":
         v = np.round(rng.uniform(-999, 999, size=n), int(pick(rng, [1, 2, 3])))
     elif style == "occupancy":
         v = np.round(rng.uniform(0, 1, size=n), 2)
@@ -1379,7 +1384,9 @@ def gen_name(rng, used):
     while True:
         n = int(rng.integers(1, 13))
         s = "".join(_NAME_ALPHA[int(rng.integers(len(_NAME_ALPHA)))] for _ in range(n))
-        if s[0] != "_" and s not in used:
+        if rng.random() < 0.15:
+            s = "_" * int(rng.integers(1, 3)) + s        # names may themselves start with underscores
+        if s not in used:
             used.add(s)
             return s
 
